@@ -36,6 +36,7 @@ type SIndex struct{ X, I SExpr }
 type SSliceE struct{ X, Lo, Hi SExpr }
 type SVar struct{ Name, Type string }
 type SQuant struct {
+	Lambda bool // lambda k int :: e — the ghost map k ↦ e
 	Forall bool
 	Vars   []SVar
 	Trig   [][]SExpr
@@ -250,7 +251,7 @@ func isCmpOp(s string) bool {
 }
 
 func (p *sparser) cmp() SExpr {
-	if p.isID("forall") || p.isID("exists") {
+	if p.isID("forall") || p.isID("exists") || p.isID("lambda") {
 		return p.quant()
 	}
 	l := p.add()
@@ -278,7 +279,8 @@ func (p *sparser) cmp() SExpr {
 }
 
 func (p *sparser) quant() SExpr {
-	q := &SQuant{Forall: p.next().s == "forall"}
+	kw := p.next().s
+	q := &SQuant{Forall: kw == "forall", Lambda: kw == "lambda"}
 	for {
 		name := p.ident()
 		// type: raw text up to ',' or '::' at depth 0
@@ -420,7 +422,7 @@ func (p *sparser) primary() SExpr {
 		if t.s == "false" {
 			return &SBool{false}
 		}
-		if t.s == "forall" || t.s == "exists" {
+		if t.s == "forall" || t.s == "exists" || t.s == "lambda" {
 			p.pos--
 			return p.quant()
 		}
